@@ -318,8 +318,101 @@ func c12(c *an.Check) {
 			"util/extra25519.PrivateKeyToCurve25519: bounds digest[31]":      "digest is a SHA-512 sum (64 bytes)",
 		}})
 	}
+	// NILDEREF: (pointer, error) results — curve points, ECDH keys, ciphers — are dereferenced only behind err == nil
+	{
+		fns := []*ssa.Function{enc, dec, p.Func("peer", "", "EncryptToPubKey"), p.Func("peer", "", "DecryptWithPrivKey")}
+		for _, f := range p.PkgFuncs("util/extra25519") {
+			if f.Parent() == nil {
+				fns = append(fns, f)
+			}
+		}
+		n := c.NilDerefGuard("NILDEREF", "(value, error) results dereferenced only when err==nil", fns, nil)
+		c.Require(n >= 6, "NILDEREF", "public-key encryption (value, error) call sites found", dec, "", n, "call sites enumerated", "anchor drift: too few (value, error) calls found in the encrypt/decrypt path")
+	}
+	// LENGUARD: the too-short rejection must not reach genuine ciphertexts. The shortest genuine ciphertext (empty
+	// message) is header + AEAD tag + 1 byte of s2 framing; header = the body offset used by Open.
+	{
+		hdr := int64(0)
+		isCT := func(v ssa.Value) bool { return an.IsParam(v, 2) }
+		for _, b := range dec.Blocks {
+			for _, ins := range b.Instrs {
+				if sl, ok := ins.(*ssa.Slice); ok && isCT(sl.X) && sl.Low != nil {
+					if k, ok := sl.Low.(*ssa.Const); ok && k.Int64() > hdr {
+						hdr = k.Int64()
+					}
+				}
+			}
+		}
+		const aeadOverhead, s2Empty = 16, 1
+		minGenuine := hdr + aeadOverhead + s2Empty
+		st := p.NewState(dec)
+		nG, badG := 0, ""
+		for _, b := range dec.Blocks {
+			iff, ok := b.Instrs[len(b.Instrs)-1].(*ssa.If)
+			if !ok {
+				continue
+			}
+			bo, ok := iff.Cond.(*ssa.BinOp)
+			if !ok {
+				continue
+			}
+			var k *ssa.Const
+			flipped := false
+			if kk, isK := bo.Y.(*ssa.Const); isK && an.LenOf(st, bo.X, isCT) {
+				k = kk
+			} else if kk, isK := bo.X.(*ssa.Const); isK && an.LenOf(st, bo.Y, isCT) {
+				k, flipped = kk, true
+			}
+			if k == nil {
+				continue
+			}
+			// which successor rejects (returns a non-nil error immediately)?
+			for si, succ := range b.Succs {
+				ret, isRet := succ.Instrs[len(succ.Instrs)-1].(*ssa.Return)
+				if !isRet || len(ret.Results) != 2 {
+					continue
+				}
+				if kk, isK := ret.Results[1].(*ssa.Const); isK && kk.Value == nil {
+					continue // nil error: not a rejection
+				}
+				nG++
+				want := si == 0
+				for L := int64(0); L <= minGenuine+64; L++ {
+					a, bb := L, k.Int64()
+					if flipped {
+						a, bb = bb, a
+					}
+					var holds bool
+					switch bo.Op {
+					case token.LSS:
+						holds = a < bb
+					case token.LEQ:
+						holds = a <= bb
+					case token.GTR:
+						holds = a > bb
+					case token.GEQ:
+						holds = a >= bb
+					case token.EQL:
+						holds = a == bb
+					case token.NEQ:
+						holds = a != bb
+					}
+					if holds == want && L >= minGenuine {
+						badG = fmt.Sprintf("the length guard at %s rejects %d-byte ciphertexts, but genuine ciphertexts start at %d bytes (header %d + tag %d + s2 frame %d): short messages no longer round-trip", p.Pos(bo.Pos()), L, minGenuine, hdr, aeadOverhead, s2Empty)
+						break
+					}
+				}
+			}
+		}
+		c.Require(badG == "" && nG >= 1 && hdr > 0, "LENGUARD", "peer.DecryptWithEd25519 rejects as too short only lengths below the shortest genuine ciphertext", dec, "", nG, fmt.Sprintf("length rejections only below %d bytes", minGenuine), func() string {
+			if badG != "" {
+				return badG
+			}
+			return "no length guard on the ciphertext found (anchor drift)"
+		}())
+	}
 	thoroughCallers(c, "public-key decryption", 0, []string{"peer", "envelope", "transport/webrtc"}, an.R("peer", "", "DecryptWithPrivKey"), an.R("peer", "", "DecryptWithEd25519"))
-	c.Trust("XChaCha20-Poly1305, AES, X25519, BLAKE3, s2 behave as documented", "filippo.io/edwards25519 SetBytes/BytesMontgomery")
+	c.Trust("XChaCha20-Poly1305 (tag = 16 bytes), AES, X25519, BLAKE3, s2 (empty input encodes to 1 byte) behave as documented", "filippo.io/edwards25519 SetBytes/BytesMontgomery")
 }
 
 // rootIsCiphertextCopy: x is the local [32]byte array that receives copy(arr[:], ciphertext[4:]).
